@@ -439,10 +439,9 @@ class D06(Extra):
         return 'ok', None
 
     def const_binary(self, g):
-        ks = fml.children(g)
-        if len(ks) == 2 and not fml.fvars(ks[0]) and not fml.fvars(ks[1]):
-            return True
-        return any(self.const_binary(k) for k in ks)
+        # was the guard of KF-C05-const-binary (a dense online binary node over two constants raised at the second update);
+        # repaired in /repo (D43): such cases are judged like all others
+        return False
 
     def features(self, c):
         return ['dense', 'dense-sem:' + c['sem']]
